@@ -167,8 +167,8 @@ Definition A (fg bg b d i u bl inv : N) : atts :=
   mkAtts (color_of_N fg) (color_of_N bg) (tri_of_N b) (tri_of_N d) (tri_of_N i)
          (tri_of_N u) (tri_of_N bl) (tri_of_N inv).
 Definition C (s : str) (a : atts) : chunk := mkChunk s a.
-(* S fg bg bold dark italic underline blink invert; colours as in A, styles 0 off / 1 on *)
-Definition S (fg bg b d i u bl inv : N) : sgr :=
+(* Sg fg bg bold dark italic underline blink invert; colours as in A, styles 0 off / 1 on *)
+Definition Sg (fg bg b d i u bl inv : N) : sgr :=
   mkSgr (color_of_N fg) (color_of_N bg) (N.eqb b 1) (N.eqb d 1) (N.eqb i 1)
         (N.eqb u 1) (N.eqb bl 1) (N.eqb inv 1).
 
